@@ -175,6 +175,12 @@ Fixpoint oracle_walk (cs : cast) (dfn : list byte) (text : list bytes) (cols : l
               else match o, otl with Err _, [] => (None, false) | _, _ => (None, true) end
           | [] => (None, true)
           end
+      | CCast more =>      (* a cast section leaves the storyline alone; the cast in force grows *)
+          match o with
+          | Ok obs => if story_eqb obs text then oracle_walk (cs ++ more) dfn text cols ctl edits otl
+                      else (None, true)
+          | _ => (None, true)
+          end
       | _ =>
           match o with
           | Ok obs => if story_eqb obs text then oracle_walk cs (defines cs c ++ dfn) text cols ctl edits otl
